@@ -409,13 +409,32 @@ func statelessVar(o types.Object) bool {
 // poolVar: a package-level sync.Pool.  What Get hands out is tracked as the region `pooled`
 // (see extModels): it may be used as scratch memory, and it is reported when it can reach a
 // result.  The pool variable itself carries no value a result could depend on.
-func poolVar(o types.Object) bool {
-	t := o.Type()
-	if p, ok := t.(*types.Pointer); ok {
-		t = p.Elem()
+func poolVar(o types.Object) bool { return poolType(o.Type(), 0) }
+
+// a sync.Pool, a pointer to one, or an array / slice / map of pools (one pool per algorithm)
+func poolType(t types.Type, depth int) bool {
+	if depth > 3 {
+		return false
 	}
-	n, ok := t.(*types.Named)
-	return ok && n.Obj().Pkg() != nil && n.Obj().Pkg().Path() == "sync" && n.Obj().Name() == "Pool"
+	switch u := t.(type) {
+	case *types.Pointer:
+		return poolType(u.Elem(), depth+1)
+	case *types.Array:
+		return poolType(u.Elem(), depth+1)
+	case *types.Slice:
+		return poolType(u.Elem(), depth+1)
+	case *types.Map:
+		return poolType(u.Elem(), depth+1)
+	case *types.Named:
+		if u.Obj().Pkg() != nil && u.Obj().Pkg().Path() == "sync" && u.Obj().Name() == "Pool" {
+			return true
+		}
+		if _, isStruct := u.Underlying().(*types.Struct); isStruct {
+			return false
+		}
+		return poolType(u.Underlying(), depth+1)
+	}
+	return false
 }
 
 var aPooled = atom{kind: "global", name: "pooled-object"}
